@@ -235,3 +235,74 @@ func filepathBase(pos string) string {
 	}
 	return pos
 }
+
+// c19WalkSkipDir: the CLI's verdict covers the files its directory walk hands out. filepath.Walk / WalkDir treat
+// SkipDir returned for a *file* as "skip the rest of this directory", so a callback that returns it for anything
+// that is not a directory silently drops the sibling files that sort after the entry.
+func c19WalkSkipDir(c *Ctx, p *core.Prog, scope []string, fired map[string]bool) int {
+	r := c.R
+	n := 0
+	isSkipDir := func(v ssa.Value) bool {
+		u, ok := v.(*ssa.UnOp)
+		if !ok {
+			return false
+		}
+		g, ok := u.X.(*ssa.Global)
+		return ok && g.Name() == "SkipDir" && g.Pkg != nil && (g.Pkg.Pkg.Path() == "path/filepath" || g.Pkg.Pkg.Path() == "io/fs")
+	}
+	for _, fn := range p.SrcFuncs(scope...) {
+		seq := 0
+		for _, b := range fn.Blocks {
+			for _, in := range b.Instrs {
+				// the value may be returned directly or stored into a spilled result first
+				var v ssa.Value
+				switch x := in.(type) {
+				case *ssa.Return:
+					for _, rv := range x.Results {
+						if isSkipDir(rv) {
+							v = rv
+						}
+					}
+				case *ssa.Store:
+					if _, isAlloc := x.Addr.(*ssa.Alloc); isAlloc && isSkipDir(x.Val) {
+						v = x.Val
+					}
+				}
+				if v == nil {
+					continue
+				}
+				n++
+				seq++
+				key := core.FnName(fn) + sprintf("|SkipDir#%d", seq)
+				guarded := false
+				for _, cd := range core.ControlDeps(b) {
+					call, ok := cd.If.Cond.(*ssa.Call)
+					if !ok || cd.Succ != 0 {
+						continue
+					}
+					name := ""
+					if call.Call.IsInvoke() {
+						name = call.Call.Method.Name()
+					} else if f := call.Call.StaticCallee(); f != nil {
+						name = f.Name()
+					}
+					if name == "IsDir" {
+						guarded = true
+					}
+				}
+				if fired != nil {
+					if !guarded {
+						fired[key] = true
+					}
+					continue
+				}
+				if guarded {
+					r.OK("walk-skipdir", key, p.Pos(in.Pos()), "returned only for a directory")
+				} else {
+					r.Violate("walk-skipdir", key, p.Pos(in.Pos()), "filepath.SkipDir is returned without the entry having been tested with IsDir(): returned for a file it makes the walk skip the remaining files of that directory, which are then neither processed nor reported")
+				}
+			}
+		}
+	}
+	return n
+}
